@@ -524,6 +524,30 @@ def main():
             continue   # the two known findings have their own (Kani) obligations; 256/257-variant enums are Kani's
         nat.append('        // n(nfam_rt_%s, "C01,C02", "derive(Savefile) output for %s: Serialize::serialize; Deserialize::deserialize", "small-scope values of %s (bounded fallback for the Kani harness fam_rt_%s)");' % (t.name, t.name, t.name, t.name))
         nat.append('        ("nfam_rt_%s", (|s: &mut crate::src::EnumSrc| crate::family::roundtrip::<crate::family_gen::%s, _>(s)) as fn(&mut crate::src::EnumSrc)),' % (t.name, t.name))
+    KF = ("EExplicit", "SWithEnum", "SUpperBound")   # known findings: their (Kani) obligations carry the finding
+    for t in FAMILY:
+        if t.name in KF or "big" in t.tags:
+            continue
+        n = t.name
+        nat.append('        // n(nfam_packed_%s, "C04,C18", "derive(Savefile) Packed::repr_c_optimization_safe for %s", "small-scope values of %s, every version <= current (bounded fallback for the Kani harness fam_packed_%s)");' % (n, n, n, n))
+        nat.append('        ("nfam_packed_%s", (|s: &mut crate::src::EnumSrc| crate::family::packed_sound::<crate::family_gen::%s, _>(s)) as fn(&mut crate::src::EnumSrc)),' % (n, n))
+        if "novec" not in t.tags:
+            nat.append('        // n(nfam_vec_%s, "C04,C01", "<Vec<T> as Serialize>::serialize; <Vec<T> as Deserialize>::deserialize (bulk and regular paths) for T = %s", "Vec of two small-scope values of %s (bounded fallback for fam_vec_%s)");' % (n, n, n, n))
+            nat.append('        ("nfam_vec_%s", (|s: &mut crate::src::EnumSrc| crate::family::vec_transparent::<crate::family_gen::%s, _>(s)) as fn(&mut crate::src::EnumSrc)),' % (n, n))
+        if "older" in t.tags:
+            nat.append('        // n(nfam_older_%s, "C18", "derive(Savefile) Serialize for %s writing every older version", "small-scope values of %s (bounded fallback for fam_older_%s)");' % (n, n, n, n))
+            nat.append('        ("nfam_older_%s", (|s: &mut crate::src::EnumSrc| crate::family::write_older::<crate::family_gen::%s, _>(s)) as fn(&mut crate::src::EnumSrc)),' % (n, n))
+    for t in FAMILY:
+        if t.name in KF or "big" in t.tags or "novec" in t.tags or "bounded" in t.tags:
+            continue
+        nat.append('        // n(nbulk_%s, "C04", "Serialize/Deserialize (bulk and regular paths) for Vec<T>, Box<[T]>, Arc<[T]>, [T;N], ArrayVec<T,C>, VecDeque<T> with T = %s", "two small-scope element values of %s");' % (t.name, t.name, t.name))
+        nat.append('        ("nbulk_%s", (|s: &mut crate::src::EnumSrc| crate::native_misc::bulk_containers::<crate::family_gen::%s, _>(s)) as fn(&mut crate::src::EnumSrc)),' % (t.name, t.name))
+    for hname, hist in HISTORIES.items():
+        for i, o in enumerate(hist):
+            for j, nw in enumerate(hist):
+                if i < j and project_ok(nw, o):
+                    nat.append('        // n(nolder_%s_%s, "C18", "derive(Savefile) Serialize for %s writing version %d; derive Deserialize for %s; AbiRemoved::serialize", "small-scope values of %s (bounded fallback for older_%s_%s)");' % (nw.name, o.name, nw.name, o.version, o.name, nw.name, nw.name, o.name))
+                    nat.append('        ("nolder_%s_%s", (|s: &mut crate::src::EnumSrc| crate::family::write_older_read::<crate::family_gen::%s, crate::family_gen::%s, _>(s)) as fn(&mut crate::src::EnumSrc)),' % (nw.name, o.name, nw.name, o.name))
     for n in ["SVerOrder", "SAbiRem", "SMidRange"]:
         nat.append('        // n(nschema_versions_%s, "C12", "derive WithSchema for %s at every version <= current; savefile::get_schema; derive Serialize writing older versions", "small-scope values of %s, every version 0..=current");' % (n, n, n))
         nat.append('        ("nschema_versions_%s", (|s: &mut crate::src::EnumSrc| crate::schemaread::schema_faithful_versions::<crate::family_gen::%s, _>(s)) as fn(&mut crate::src::EnumSrc)),' % (n, n))
